@@ -1115,7 +1115,8 @@ TABLE = {
     "C03": [("R3.9", signal_death_is_failure), ("R3.10", uncertain_is_not_built_directly), ("R3.11", stamp_reads_to_eof)],
     "C05": [("R5.8", signal_death_is_failure),
             ("R5.9", borrow("C01", "R1.3", None, "the edge to a requested target must exist even when that target then fails, or the caller is not dirty next run and the failed target is never retried")),
-            ("R5.10", memo_after_failed_test), ("R5.12", callback_error_keeps_cause), ("R5.13", flags_exported_only_when_set)],   # + ("R5.11", decision_sees_finished_jobs) once the F-T fix is committed in /repo
+            ("R5.10", memo_after_failed_test), ("R5.12", callback_error_keeps_cause), ("R5.13", flags_exported_only_when_set),
+            ("R5.11", decision_sees_finished_jobs)],
     "C04": [("R4.6", output_probed_with_lstat), ("R4.7", direct_modification_is_inequality), ("R4.8", stdout_amount_from_fstat),
             ("R4.9", borrow("C13", "R13.3", r"^[^|]*\|\$3=", "two targets that differ only in the matched extension must not share one temp output file: the second script's output would replace or destroy the first's"))],
     "C11": [("R11.8", direct_modification_is_inequality),
